@@ -725,6 +725,11 @@ class Data(Field):
                     if isinstance(self.until_marker, bytes) else
                     self.until_marker.pattern
                 )
+                if value.regexp is not None and self.include_delimiter:
+                    # the value (and the custom regexp that describes it)
+                    # already includes the delimiter
+                    endswith = b""
+
                 fragments.append(custom_regexp + endswith, is_literal=False)
 
         return fragments
